@@ -57,6 +57,14 @@ CLAIMS = {
   text="Kernel-checked theorems (Props/C07.lean) about a faithful model of Codebase.add_file/add_folder/aggregate, LanguageTotals, ScanTotals and the profile functions (thresholds taken from the source-regenerated Gen/Logic.lean): for every list of files with pairwise distinct paths not starting with './' (any depth, shared prefixes, empty components, any insertion order, any languages/loc/measurements), building never raises and the fuel suffices; per-language totals, file profiles, folder profiles (= sum over all files beneath), root profile, grand totals, and the tree shape (every file once under its parent, every folder once under its parent, all ancestors present, nothing else) are exactly as the property states. Correspondence: the real Codebase object and the JSON report vs the model on random path sets, all insertion orders of small sets, malformed paths; oracle recomputes every number from the input.",
   note="Trusted: Lean kernel; translator/logic.py; harness. Python dicts modelled as insertion-ordered association lists; recursion depth assumed below the interpreter limit. A second aggregate() doubles profiles (observation outside the property).",
   design="6/C07", technique="Lean 4 proof over a model of the codebase builder + correspondence with independent oracle"),
+ "C09": dict(
+  text="Kernel-checked theorems (Props/C09.lean) about an abstract state-machine model of scan_command/_read_cached_report/_scan_file/read_report with parameters analyze, hash (injective), selected: the invariant `the cache is honest or unusable` holds initially and is preserved by every operation (write, delete, rename, touch, swap, change exclusions, replace the cache by junk / a foreign-version document with arbitrary entries / an honest one, truncation, scan), hence after EVERY finite history a cache-assisted scan reports exactly what a fresh scan reports; a result is reused only for a path whose cached hash equals the hash of the current content under the current version; report/findings refuse other versions. Correspondence: the real scan_command on temp dirs over bounded-exhaustive and random histories with _analyze_file instrumented; oracle = fresh scan of a copy + reuse audit.",
+  note="Assumes md5 injective on the explored universe. The byte level (what _read_cached_report makes of arbitrary bytes) enters as the contract ByteContract, proved for the JSON model in C08 and checked at every byte offset in C10.",
+  design="6/C09", technique="Lean 4 proof (inductive invariant over all operation histories) + history correspondence on the real CLI code"),
+ "C10": dict(
+  text="Kernel-checked theorems (Props/C10.lean) on the same model: for a missing, unreadable, ill-typed or foreign-version cache the scan completes, analyses everything, reports exactly the fresh result and leaves a usable honest cache; the same after any interleaving of faults, edits and scans; a truncated write (any prefix of the document) is harmless given the byte contract (round trip; proper prefixes are junk unless only whitespace is cut). Correspondence/fault enumeration on the real code: truncation at every byte offset, every key removed at every level, every value replaced by values of other JSON types, junk texts, cache directory without file/markers, random fault/edit/scan histories.",
+  note="The byte contract is a hypothesis of truncated_write_harmless (C08 proves the round trip for the JSON model; prefix-junk is checked exhaustively by this run). Marker files are observed only.",
+  design="6/C10", technique="Lean 4 proof (fault operations preserve the cache invariant) + exhaustive fault enumeration on the real code"),
 }
 
 NA_REASON = "check under construction in this round (see DESIGN.md section 6); not yet claimed"
